@@ -138,6 +138,11 @@ func (r Rendered) ParamString(configPath string) string {
 	return strings.Join(ps, ",")
 }
 
+// DualValue returns the value of a dual-channel option (list or scalar form) and whether it is set.
+func (c Config) DualValue(name string) (list []string, str string, isList bool, set bool) {
+	return c.dualValue(name)
+}
+
 func (c Config) dualValue(name string) (list []string, str string, isList bool, set bool) {
 	switch name {
 	case "types":
